@@ -445,5 +445,451 @@ pub open spec fn goto_kernel_has(gr: Gram, s: Set<StateItem>, x: Symbol, k: Stat
     exists|it: StateItem| s.contains(it) && #[trigger] after_dot(gr, it) == Some(x) && k == advanced(it)
 }
 
+
+// =====================================================================================================
+// The LALR(1) automaton, specified on the automaton itself (self-certifying conditions + minimality)
+// =====================================================================================================
+
+/// kernel of goto(i_set, x) as a set
+pub open spec fn kernel_set(gr: Gram, i_set: Set<StateItem>, x: Symbol) -> Set<StateItem> {
+    i_set.filter(|i: StateItem| after_dot(gr, i) == Some(x)).map(|i: StateItem| advanced(i))
+}
+
+pub proof fn lemma_kernel_set(gr: Gram, i_set: Set<StateItem>, x: Symbol)
+    ensures forall|k: StateItem| #[trigger] kernel_set(gr, i_set, x).contains(k) <==> goto_kernel_has(gr, i_set, x, k),
+{
+    let f = i_set.filter(|i: StateItem| after_dot(gr, i) == Some(x));
+    assert forall|k: StateItem| #[trigger] kernel_set(gr, i_set, x).contains(k) <==> goto_kernel_has(gr, i_set, x, k) by {
+        if kernel_set(gr, i_set, x).contains(k) {
+            let i = choose|i: StateItem| f.contains(i) && k == advanced(i);
+            assert(i_set.contains(i) && after_dot(gr, i) == Some(x));
+        }
+        if goto_kernel_has(gr, i_set, x, k) {
+            let i = choose|i: StateItem| i_set.contains(i) && #[trigger] after_dot(gr, i) == Some(x) && k == advanced(i);
+            assert(f.contains(i));
+        }
+    }
+}
+
+/// x is derivable for state s by at most n steps from: the start item in state 0, closure steps inside a state,
+/// goto steps along the recorded transitions.  The item sets of the LALR(1) automaton are the LEAST family closed
+/// under these rules; `lalr_in` is membership in that least family.
+pub open spec fn lalr_reach(gr: Gram, tr: Set<Transition>, n: nat, s: int, x: StateItem) -> bool
+    decreases n
+{
+    if n == 0 { s == 0 && x == start_item() }
+    else {
+        ||| lalr_reach(gr, tr, (n - 1) as nat, s, x)
+        ||| exists|i: StateItem| lalr_reach(gr, tr, (n - 1) as nat, s, i) && #[trigger] closure_step(gr, i, x)
+        ||| exists|t: Transition, i: StateItem| #![trigger tr.contains(t), advanced(i)] tr.contains(t) && t.to.0 == s
+                && lalr_reach(gr, tr, (n - 1) as nat, t.from.0 as int, i) && after_dot(gr, i) == Some(t.symbol) && x == advanced(i)
+    }
+}
+
+pub open spec fn lalr_in(gr: Gram, tr: Set<Transition>, s: int, x: StateItem) -> bool { exists|n: nat| lalr_reach(gr, tr, n, s, x) }
+
+pub proof fn lemma_lalr_mono_n(gr: Gram, tr: Set<Transition>, n: nat, m: nat, s: int, x: StateItem)
+    requires n <= m, lalr_reach(gr, tr, n, s, x)
+    ensures lalr_reach(gr, tr, m, s, x)
+    decreases m - n
+{
+    if n < m { lemma_lalr_mono_n(gr, tr, n, (m - 1) as nat, s, x); }
+}
+
+/// more transitions justify more
+pub proof fn lemma_lalr_mono_tr(gr: Gram, tr: Set<Transition>, tr2: Set<Transition>, n: nat, s: int, x: StateItem)
+    requires tr.subset_of(tr2), lalr_reach(gr, tr, n, s, x)
+    ensures lalr_reach(gr, tr2, n, s, x)
+    decreases n
+{
+    if n > 0 {
+        if lalr_reach(gr, tr, (n - 1) as nat, s, x) { lemma_lalr_mono_tr(gr, tr, tr2, (n - 1) as nat, s, x); }
+        else if exists|i: StateItem| lalr_reach(gr, tr, (n - 1) as nat, s, i) && #[trigger] closure_step(gr, i, x) {
+            let i = choose|i: StateItem| lalr_reach(gr, tr, (n - 1) as nat, s, i) && #[trigger] closure_step(gr, i, x);
+            lemma_lalr_mono_tr(gr, tr, tr2, (n - 1) as nat, s, i);
+        } else {
+            let (t, i) = choose|t: Transition, i: StateItem| #![trigger tr.contains(t), advanced(i)] tr.contains(t) && t.to.0 == s
+                && lalr_reach(gr, tr, (n - 1) as nat, t.from.0 as int, i) && after_dot(gr, i) == Some(t.symbol) && x == advanced(i);
+            lemma_lalr_mono_tr(gr, tr, tr2, (n - 1) as nat, t.from.0 as int, i);
+            assert(tr2.contains(t));
+        }
+    }
+}
+
+pub proof fn lemma_lalr_closure_step(gr: Gram, tr: Set<Transition>, s: int, i: StateItem, x: StateItem)
+    requires lalr_in(gr, tr, s, i), closure_step(gr, i, x)
+    ensures lalr_in(gr, tr, s, x)
+{
+    let n = choose|n: nat| lalr_reach(gr, tr, n, s, i);
+    assert(lalr_reach(gr, tr, n + 1, s, x));
+}
+
+pub proof fn lemma_lalr_goto_step(gr: Gram, tr: Set<Transition>, t: Transition, i: StateItem)
+    requires tr.contains(t), lalr_in(gr, tr, t.from.0 as int, i), after_dot(gr, i) == Some(t.symbol)
+    ensures lalr_in(gr, tr, t.to.0 as int, advanced(i))
+{
+    let n = choose|n: nat| lalr_reach(gr, tr, n, t.from.0 as int, i);
+    assert(lalr_reach(gr, tr, n + 1, t.to.0 as int, advanced(i)));
+}
+
+/// the closure of a justified kernel is justified
+pub proof fn lemma_lalr_closure(gr: Gram, tr: Set<Transition>, s: int, k: Set<StateItem>, n: nat, x: StateItem)
+    requires forall|y: StateItem| #[trigger] k.contains(y) ==> lalr_in(gr, tr, s, y), closure_reach(gr, k, n, x)
+    ensures lalr_in(gr, tr, s, x)
+    decreases n
+{
+    if n > 0 {
+        if closure_reach(gr, k, (n - 1) as nat, x) { lemma_lalr_closure(gr, tr, s, k, (n - 1) as nat, x); }
+        else {
+            let i = choose|i: StateItem| closure_reach(gr, k, (n - 1) as nat, i) && #[trigger] closure_step(gr, i, x);
+            lemma_lalr_closure(gr, tr, s, k, (n - 1) as nat, i);
+            lemma_lalr_closure_step(gr, tr, s, i, x);
+        }
+    }
+}
+
+/// the closure of anything is closed
+pub proof fn lemma_closure_is_closed(gr: Gram, s: Set<StateItem>, t: Set<StateItem>)
+    requires forall|x: StateItem| #[trigger] t.contains(x) <==> in_closure(gr, s, x)
+    ensures closure_closed(gr, t), s.subset_of(t)
+{
+    assert forall|i: StateItem, x: StateItem| t.contains(i) && #[trigger] closure_step(gr, i, x) implies t.contains(x) by {
+        lemma_closure_step(gr, s, i, x);
+    }
+    assert forall|x: StateItem| s.contains(x) implies t.contains(x) by { lemma_closure_base(gr, s, x); }
+}
+
+/// the core of a closure depends only on the core of the kernel: a closure step is possible from one item iff it is
+/// possible (perhaps with another lookahead) from any item with the same rule and dot
+pub proof fn lemma_closure_core_mono(gr: Gram, k1: Set<StateItem>, k2: Set<StateItem>, n: nat, x: StateItem)
+    requires core_subset(k1, k2), closure_reach(gr, k1, n, x)
+    ensures exists|y: StateItem| in_closure(gr, k2, y) && #[trigger] core_item(y) == core_item(x)
+    decreases n
+{
+    if n == 0 {
+        let y = choose|y: StateItem| k2.contains(y) && #[trigger] core_item(y) == core_item(x);
+        lemma_closure_base(gr, k2, y);
+    } else if closure_reach(gr, k1, (n - 1) as nat, x) {
+        lemma_closure_core_mono(gr, k1, k2, (n - 1) as nat, x);
+    } else {
+        let i = choose|i: StateItem| closure_reach(gr, k1, (n - 1) as nat, i) && #[trigger] closure_step(gr, i, x);
+        lemma_closure_core_mono(gr, k1, k2, (n - 1) as nat, i);
+        let i2 = choose|i2: StateItem| in_closure(gr, k2, i2) && #[trigger] core_item(i2) == core_item(i);
+        // i2 has the same rule and dot as i: the same successor rule applies, with a lookahead chosen for i2
+        let beta = rhs_from(gr, i, i.dot + 1);
+        assert(rhs_from(gr, i2, i2.dot + 1) == beta);
+        assert(after_dot(gr, i2) == after_dot(gr, i));
+        let la2 = if x.lookahead is Terminal && seq_in_first(gr.g, beta, x.lookahead->Terminal_0) { x.lookahead } else { i2.lookahead };
+        let y = StateItem { rule_index: x.rule_index, lookahead: la2, dot: 0 };
+        assert(in_first_la(gr, beta, i2.lookahead, la2));
+        assert(closure_step(gr, i2, y));
+        lemma_closure_step(gr, k2, i2, y);
+        assert(core_item(y) == core_item(x));
+    }
+}
+
+
+// ---------- core algebra ----------
+pub proof fn lemma_core_subset_trans(a: Set<StateItem>, b: Set<StateItem>, c: Set<StateItem>)
+    requires core_subset(a, b), core_subset(b, c)
+    ensures core_subset(a, c)
+{
+    assert forall|it: StateItem| #[trigger] a.contains(it) implies core_has(c, core_item(it)) by {
+        let y = choose|y: StateItem| b.contains(y) && #[trigger] core_item(y) == core_item(it);
+        assert(core_has(c, core_item(y)));
+    }
+}
+
+pub proof fn lemma_same_core_union(a: Set<StateItem>, t: Set<StateItem>)
+    requires same_core(t, a)
+    ensures same_core(a.union(t), a), same_core(a, a.union(t))
+{
+    assert forall|it: StateItem| #[trigger] a.union(t).contains(it) implies core_has(a, core_item(it)) by {
+        if a.contains(it) { assert(core_item(it) == core_item(it)); }
+    }
+    assert forall|it: StateItem| #[trigger] a.contains(it) implies core_has(a.union(t), core_item(it)) by {
+        assert(a.union(t).contains(it));
+    }
+}
+
+pub proof fn lemma_same_core_refl(a: Set<StateItem>)
+    ensures same_core(a, a)
+{
+    assert forall|it: StateItem| #[trigger] a.contains(it) implies core_has(a, core_item(it)) by { assert(core_item(it) == core_item(it)); }
+}
+
+// ---------- the automaton invariant ----------
+/// item i has symbol x right of its dot
+pub open spec fn has_after(gr: Gram, i: StateItem, x: Symbol) -> bool { after_dot(gr, i) == Some(x) }
+
+/// y is in goto(its[from], symbol) = closure(kernel)
+pub open spec fn in_goto(gr: Gram, i_set: Set<StateItem>, x: Symbol, y: StateItem) -> bool { in_closure(gr, kernel_set(gr, i_set, x), y) }
+
+/// the target of transition t has exactly the core of goto(its[t.from], t.symbol)
+pub open spec fn goto_core_ok(gr: Gram, its: Seq<Set<StateItem>>, t: Transition) -> bool {
+    let from = its[t.from.0 as int];
+    let to = its[t.to.0 as int];
+    &&& forall|x: StateItem| #[trigger] to.contains(x) ==> exists|y: StateItem| in_goto(gr, from, t.symbol, y) && #[trigger] core_item(y) == core_item(x)
+    &&& forall|y: StateItem| #[trigger] in_goto(gr, from, t.symbol, y) ==> core_has(to, core_item(y))
+    &&& exists|i: StateItem| from.contains(i) && #[trigger] has_after(gr, i, t.symbol)
+}
+
+/// state s is entered by a transition from an earlier state
+pub open spec fn has_incoming(tr: Set<Transition>, s: int) -> bool { exists|t: Transition| #[trigger] tr.contains(t) && t.to.0 == s && t.from.0 < s }
+
+/// everything about the automaton under construction that does not depend on the work queue
+pub open spec fn inv_core(gr: Gram, its: Seq<Set<StateItem>>, tr: Set<Transition>) -> bool {
+    &&& its.len() >= 1 && its[0].contains(start_item())
+    &&& forall|s: int| 0 <= s < its.len() ==> closure_closed(gr, #[trigger] its[s])
+    &&& forall|i: int, j: int| 0 <= i < j < its.len() ==> !same_core(#[trigger] its[i], #[trigger] its[j])
+    &&& forall|t: Transition| #[trigger] tr.contains(t) ==> t.from.0 < its.len() && t.to.0 < its.len() && goto_core_ok(gr, its, t)
+    &&& forall|t1: Transition, t2: Transition| #[trigger] tr.contains(t1) && #[trigger] tr.contains(t2) && t1.from == t2.from && t1.symbol == t2.symbol ==> t1.to == t2.to
+    &&& forall|s: int| 0 < s < its.len() ==> #[trigger] has_incoming(tr, s)
+    &&& forall|s: int, x: StateItem| 0 <= s < its.len() && #[trigger] its[s].contains(x) ==> lalr_in(gr, tr, s, x)
+}
+
+/// state s is goto-complete: every item with a symbol after its dot has its successor in the transition target
+pub open spec fn processed(gr: Gram, its: Seq<Set<StateItem>>, tr: Set<Transition>, s: int) -> bool {
+    forall|i: StateItem, x: Symbol| its[s].contains(i) && #[trigger] has_after(gr, i, x) ==>
+        exists|t: Transition| #[trigger] tr.contains(t) && t.from.0 == s && t.symbol == x && its[t.to.0 as int].contains(advanced(i))
+}
+
+/// THE specification of C17 on the automaton itself: the item sets are closed under closure and goto along a
+/// deterministic transition structure with one state per core (completeness), every item is derivable from the start
+/// item by closure and goto steps (exactness: no extra lookahead), every state is entered by a transition from an
+/// earlier state (reachability), and transitions exist only on symbols that follow a dot.
+pub open spec fn machine_is_lalr(gr: Gram, its: Seq<Set<StateItem>>, tr: Set<Transition>) -> bool {
+    inv_core(gr, its, tr) && forall|s: int| 0 <= s < its.len() ==> #[trigger] processed(gr, its, tr, s)
+}
+
+/// one merge/create step of the construction (abstract form of enqueue_transition_target)
+pub open spec fn step_rel(gr: Gram, its0: Seq<Set<StateItem>>, tr0: Set<Transition>, its1: Seq<Set<StateItem>>, tr1: Set<Transition>,
+                          s: int, x: Symbol, t: Set<StateItem>, r: int) -> bool {
+    let n = its0.len() as int;
+    &&& 0 <= s < n
+    &&& forall|y: StateItem| #[trigger] t.contains(y) <==> in_goto(gr, its0[s], x, y)
+    &&& exists|i: StateItem| its0[s].contains(i) && #[trigger] has_after(gr, i, x)
+    &&& tr1 == tr0.insert(Transition { from: StateIndex(s as usize), to: StateIndex(r as usize), symbol: x })
+    &&& if exists|j: int| 0 <= j < n && same_core(t, #[trigger] its0[j]) {
+            &&& 0 <= r < n && same_core(t, its0[r]) && forall|j: int| 0 <= j < r ==> !same_core(t, #[trigger] its0[j])
+            &&& its1 == its0.update(r, its0[r].union(t))
+        } else {
+            r == n && its1 == its0.push(t)
+        }
+}
+
+pub proof fn lemma_goto_core_stable(gr: Gram, its0: Seq<Set<StateItem>>, its1: Seq<Set<StateItem>>, t: Transition)
+    requires t.from.0 < its0.len(), t.to.0 < its0.len(), its0.len() <= its1.len(), goto_core_ok(gr, its0, t),
+        same_core(its0[t.from.0 as int], its1[t.from.0 as int]), same_core(its0[t.to.0 as int], its1[t.to.0 as int]),
+        its0[t.from.0 as int].subset_of(its1[t.from.0 as int]),
+    ensures goto_core_ok(gr, its1, t)
+{
+    let f0 = its0[t.from.0 as int]; let f1 = its1[t.from.0 as int];
+    let to0 = its0[t.to.0 as int]; let to1 = its1[t.to.0 as int];
+    let k0 = kernel_set(gr, f0, t.symbol); let k1 = kernel_set(gr, f1, t.symbol);
+    lemma_kernel_set(gr, f0, t.symbol); lemma_kernel_set(gr, f1, t.symbol);
+    // kernels have the same core
+    assert(core_subset(k0, k1)) by {
+        assert forall|k: StateItem| #[trigger] k0.contains(k) implies core_has(k1, core_item(k)) by {
+            let i = choose|i: StateItem| f0.contains(i) && #[trigger] after_dot(gr, i) == Some(t.symbol) && k == advanced(i);
+            assert(f1.contains(i)); assert(goto_kernel_has(gr, f1, t.symbol, k)); assert(k1.contains(k) && core_item(k) == core_item(k));
+        }
+    }
+    assert(core_subset(k1, k0)) by {
+        assert forall|k: StateItem| #[trigger] k1.contains(k) implies core_has(k0, core_item(k)) by {
+            let i = choose|i: StateItem| f1.contains(i) && #[trigger] after_dot(gr, i) == Some(t.symbol) && k == advanced(i);
+            let i0 = choose|i0: StateItem| f0.contains(i0) && #[trigger] core_item(i0) == core_item(i);
+            assert(after_dot(gr, i0) == after_dot(gr, i));
+            assert(goto_kernel_has(gr, f0, t.symbol, advanced(i0)));
+            assert(k0.contains(advanced(i0)) && core_item(advanced(i0)) == core_item(k));
+        }
+    }
+    assert forall|x: StateItem| #[trigger] to1.contains(x) implies exists|y: StateItem| in_goto(gr, f1, t.symbol, y) && #[trigger] core_item(y) == core_item(x) by {
+        let x0 = choose|x0: StateItem| to0.contains(x0) && #[trigger] core_item(x0) == core_item(x);
+        let y0 = choose|y0: StateItem| in_goto(gr, f0, t.symbol, y0) && #[trigger] core_item(y0) == core_item(x0);
+        let n = choose|n: nat| closure_reach(gr, k0, n, y0);
+        lemma_closure_core_mono(gr, k0, k1, n, y0);
+    }
+    assert forall|y: StateItem| #[trigger] in_goto(gr, f1, t.symbol, y) implies core_has(to1, core_item(y)) by {
+        let n = choose|n: nat| closure_reach(gr, k1, n, y);
+        lemma_closure_core_mono(gr, k1, k0, n, y);
+        let y0 = choose|y0: StateItem| in_closure(gr, k0, y0) && #[trigger] core_item(y0) == core_item(y);
+        assert(in_goto(gr, f0, t.symbol, y0));
+        assert(core_has(to0, core_item(y0)));
+        let x0 = choose|x0: StateItem| to0.contains(x0) && #[trigger] core_item(x0) == core_item(y0);
+        assert(core_has(to1, core_item(x0)));
+    }
+    let i = choose|i: StateItem| f0.contains(i) && #[trigger] has_after(gr, i, t.symbol);
+    assert(f1.contains(i) && has_after(gr, i, t.symbol));
+}
+
+
+/// One step of the construction preserves the queue-independent invariant, keeps processed states processed unless they
+/// grew, and makes the successor of every (old) item of s on x present in the target.
+pub proof fn lemma_step_inv(gr: Gram, its0: Seq<Set<StateItem>>, tr0: Set<Transition>, its1: Seq<Set<StateItem>>, tr1: Set<Transition>,
+                            s: int, x: Symbol, t: Set<StateItem>, r: int)
+    requires inv_core(gr, its0, tr0), step_rel(gr, its0, tr0, its1, tr1, s, x, t, r), its0.len() < usize::MAX,
+    ensures inv_core(gr, its1, tr1),
+        its1.len() >= its0.len(), 0 <= r < its1.len(),
+        forall|p: int| 0 <= p < its0.len() ==> its0[p].subset_of(#[trigger] its1[p]),
+        forall|p: int| 0 <= p < its0.len() && p != r ==> #[trigger] its1[p] == its0[p],
+        forall|p: int| 0 <= p < its0.len() && its1[p] == its0[p] && processed(gr, its0, tr0, p) ==> #[trigger] processed(gr, its1, tr1, p),
+        forall|i: StateItem| its0[s].contains(i) && #[trigger] has_after(gr, i, x) ==> its1[r].contains(advanced(i)),
+        tr1.contains(Transition { from: StateIndex(s as usize), to: StateIndex(r as usize), symbol: x }),
+{
+    let n = its0.len() as int;
+    let tn = Transition { from: StateIndex(s as usize), to: StateIndex(r as usize), symbol: x };
+    let k0 = kernel_set(gr, its0[s], x);
+    lemma_kernel_set(gr, its0[s], x);
+    lemma_closure_is_closed(gr, k0, t);
+    let merged = exists|j: int| 0 <= j < n && same_core(t, #[trigger] its0[j]);
+    assert(tr0.subset_of(tr1));
+    assert(tn.from.0 == s && tn.to.0 == r);
+
+    // shape facts
+    assert forall|p: int| 0 <= p < n implies its0[p].subset_of(#[trigger] its1[p]) by {}
+    assert(t.subset_of(its1[r]));
+    if merged { lemma_same_core_union(its0[r], t); }
+    assert forall|p: int| 0 <= p < n implies same_core(its0[p], #[trigger] its1[p]) by {
+        if p == r && merged { } else { lemma_same_core_refl(its0[p]); }
+    }
+    // target core == core of t
+    assert(same_core(its1[r], t)) by {
+        if merged { lemma_core_subset_trans(its1[r], its0[r], t); lemma_core_subset_trans(t, its0[r], its1[r]); } else { lemma_same_core_refl(t); }
+    }
+
+    // closure-closedness
+    assert forall|p: int| 0 <= p < its1.len() implies closure_closed(gr, #[trigger] its1[p]) by {
+        if p == r {
+            assert forall|i: StateItem, y: StateItem| its1[p].contains(i) && #[trigger] closure_step(gr, i, y) implies its1[p].contains(y) by {
+                if t.contains(i) { assert(t.contains(y)); } else { assert(its0[r].contains(i)); assert(its0[r].contains(y)); }
+            }
+        }
+    }
+
+    // distinct cores
+    assert forall|i: int, j: int| 0 <= i < j < its1.len() implies !same_core(#[trigger] its1[i], #[trigger] its1[j]) by {
+        if same_core(its1[i], its1[j]) {
+            if j < n {
+                lemma_core_subset_trans(its0[i], its1[i], its1[j]); lemma_core_subset_trans(its0[i], its1[j], its0[j]);
+                lemma_core_subset_trans(its0[j], its1[j], its1[i]); lemma_core_subset_trans(its0[j], its1[i], its0[i]);
+                assert(same_core(its0[i], its0[j]));
+            } else {
+                // j is the new state (core of t), i an old one
+                lemma_core_subset_trans(t, its1[j], its1[i]); lemma_core_subset_trans(t, its1[i], its0[i]);
+                lemma_core_subset_trans(its0[i], its1[i], its1[j]);
+                assert(same_core(t, its0[i]));
+            }
+        }
+    }
+
+    // the new transition has the right target core
+    assert(goto_core_ok(gr, its1, tn)) by {
+        let f1 = its1[s];
+        let k1 = kernel_set(gr, f1, x);
+        lemma_kernel_set(gr, f1, x);
+        assert(core_subset(k0, k1)) by {
+            assert forall|k: StateItem| #[trigger] k0.contains(k) implies core_has(k1, core_item(k)) by {
+                let i = choose|i: StateItem| its0[s].contains(i) && #[trigger] after_dot(gr, i) == Some(x) && k == advanced(i);
+                assert(f1.contains(i)); assert(goto_kernel_has(gr, f1, x, k)); assert(k1.contains(k) && core_item(k) == core_item(k));
+            }
+        }
+        assert(core_subset(k1, k0)) by {
+            assert forall|k: StateItem| #[trigger] k1.contains(k) implies core_has(k0, core_item(k)) by {
+                let i = choose|i: StateItem| f1.contains(i) && #[trigger] after_dot(gr, i) == Some(x) && k == advanced(i);
+                let i0 = choose|i0: StateItem| its0[s].contains(i0) && #[trigger] core_item(i0) == core_item(i);
+                assert(after_dot(gr, i0) == after_dot(gr, i));
+                assert(goto_kernel_has(gr, its0[s], x, advanced(i0)));
+                assert(k0.contains(advanced(i0)) && core_item(advanced(i0)) == core_item(k));
+            }
+        }
+        assert forall|y: StateItem| #[trigger] its1[r].contains(y) implies exists|z: StateItem| in_goto(gr, f1, x, z) && #[trigger] core_item(z) == core_item(y) by {
+            let y0 = choose|y0: StateItem| t.contains(y0) && #[trigger] core_item(y0) == core_item(y);
+            assert(in_goto(gr, its0[s], x, y0));
+            let m = choose|m: nat| closure_reach(gr, k0, m, y0);
+            lemma_closure_core_mono(gr, k0, k1, m, y0);
+        }
+        assert forall|z: StateItem| #[trigger] in_goto(gr, f1, x, z) implies core_has(its1[r], core_item(z)) by {
+            let m = choose|m: nat| closure_reach(gr, k1, m, z);
+            lemma_closure_core_mono(gr, k1, k0, m, z);
+            let z0 = choose|z0: StateItem| in_closure(gr, k0, z0) && #[trigger] core_item(z0) == core_item(z);
+            assert(in_goto(gr, its0[s], x, z0)); assert(t.contains(z0));
+            assert(its1[r].contains(z0));
+        }
+        let i = choose|i: StateItem| its0[s].contains(i) && #[trigger] has_after(gr, i, x);
+        assert(f1.contains(i) && has_after(gr, i, x));
+    }
+
+    // all transitions: in range, right target core
+    assert forall|t0: Transition| #[trigger] tr1.contains(t0) implies t0.from.0 < its1.len() && t0.to.0 < its1.len() && goto_core_ok(gr, its1, t0) by {
+        if t0 != tn { assert(tr0.contains(t0)); lemma_goto_core_stable(gr, its0, its1, t0); }
+    }
+
+    // determinism
+    assert forall|t1: Transition, t2: Transition| #[trigger] tr1.contains(t1) && #[trigger] tr1.contains(t2) && t1.from == t2.from && t1.symbol == t2.symbol implies t1.to == t2.to by {
+        let other = if t1 == tn { t2 } else { t1 };
+        if (t1 == tn) != (t2 == tn) {
+            // an older transition from s on x: its target has the core of goto(s, x) = core of t, so t was merged into it
+            assert(tr0.contains(other) && other.from.0 == s && other.symbol == x);
+            let r0 = other.to.0 as int;
+            assert(goto_core_ok(gr, its0, other));
+            assert(same_core(t, its0[r0])) by {
+                assert forall|y: StateItem| #[trigger] t.contains(y) implies core_has(its0[r0], core_item(y)) by { assert(in_goto(gr, its0[s], x, y)); }
+                assert forall|y: StateItem| #[trigger] its0[r0].contains(y) implies core_has(t, core_item(y)) by {
+                    let z = choose|z: StateItem| in_goto(gr, its0[s], x, z) && #[trigger] core_item(z) == core_item(y);
+                    assert(t.contains(z));
+                }
+            }
+            assert(merged);
+            if r0 != r {
+                lemma_core_subset_trans(its0[r0], t, its0[r]); lemma_core_subset_trans(its0[r], t, its0[r0]);
+                if r0 < r { assert(!same_core(its0[r0], its0[r])); } else { assert(!same_core(its0[r], its0[r0])); }
+            }
+        }
+    }
+
+    // incoming transitions
+    assert forall|p: int| 0 < p < its1.len() implies #[trigger] has_incoming(tr1, p) by {
+        if p < n { assert(has_incoming(tr0, p)); let t0 = choose|t0: Transition| #[trigger] tr0.contains(t0) && t0.to.0 == p && t0.from.0 < p; assert(tr1.contains(t0)); }
+        else { assert(tr1.contains(tn) && tn.to.0 == p && tn.from.0 < p); }
+    }
+
+    // every item is justified
+    assert forall|p: int, y: StateItem| 0 <= p < its1.len() && #[trigger] its1[p].contains(y) implies lalr_in(gr, tr1, p, y) by {
+        if p < n && its0[p].contains(y) {
+            let m = choose|m: nat| lalr_reach(gr, tr0, m, p, y);
+            lemma_lalr_mono_tr(gr, tr0, tr1, m, p, y);
+        } else {
+            assert(p == r && t.contains(y));
+            // kernel items are justified by the goto step along the new transition
+            assert forall|k: StateItem| #[trigger] k0.contains(k) implies lalr_in(gr, tr1, r, k) by {
+                let i = choose|i: StateItem| its0[s].contains(i) && #[trigger] after_dot(gr, i) == Some(x) && k == advanced(i);
+                let m = choose|m: nat| lalr_reach(gr, tr0, m, s, i);
+                lemma_lalr_mono_tr(gr, tr0, tr1, m, s, i);
+                lemma_lalr_goto_step(gr, tr1, tn, i);
+            }
+            let m2 = choose|m2: nat| closure_reach(gr, k0, m2, y);
+            lemma_lalr_closure(gr, tr1, r, k0, m2, y);
+        }
+    }
+
+    // processed states stay processed as long as they did not grow
+    assert forall|p: int| 0 <= p < n && its1[p] == its0[p] && processed(gr, its0, tr0, p) implies #[trigger] processed(gr, its1, tr1, p) by {
+        assert forall|i: StateItem, y: Symbol| its1[p].contains(i) && #[trigger] has_after(gr, i, y) implies
+            exists|t0: Transition| #[trigger] tr1.contains(t0) && t0.from.0 == p && t0.symbol == y && its1[t0.to.0 as int].contains(advanced(i)) by {
+            let t0 = choose|t0: Transition| #[trigger] tr0.contains(t0) && t0.from.0 == p && t0.symbol == y && its0[t0.to.0 as int].contains(advanced(i));
+            assert(tr1.contains(t0));
+            assert(its0[t0.to.0 as int].subset_of(its1[t0.to.0 as int]));
+        }
+    }
+
+    // the successors of the old items of s on x are in the target
+    assert forall|i: StateItem| its0[s].contains(i) && #[trigger] has_after(gr, i, x) implies its1[r].contains(advanced(i)) by {
+        assert(goto_kernel_has(gr, its0[s], x, advanced(i)));
+        lemma_closure_base(gr, k0, advanced(i));
+        assert(t.contains(advanced(i)));
+    }
+}
+
 } // verus!
 } // mod vx_gram
